@@ -1261,6 +1261,57 @@ func runROOTDIRTY(c *Ctx) {
 				clearers[f] = true
 			}
 		}
+		// … and it does clear it: where the persisting function reports success for a tree whose root is nil (there
+		// is nothing to write), the mark has been set to false on every path — otherwise a tree that was emptied and
+		// then persisted keeps answering 'modified'
+		for f := range clearers {
+			ei := ir.ErrorResultIndex(f.Signature)
+			if ei < 0 {
+				continue
+			}
+			for _, r := range ir.Returns(f) {
+				if ei >= len(r.Results) || !ir.IsNilConst(r.Results[ei]) {
+					continue
+				}
+				rootNil := false
+				for _, ft := range ir.FactsAt(r.Block()) {
+					if tv, tnn, ok := ir.NilTest(ft.Cond); ok && ft.Truth != tnn {
+						if _, isRoot := rootLoad(tv); isRoot {
+							rootNil = true
+						}
+					}
+				}
+				if !rootNil {
+					continue
+				}
+				for mk := range marks {
+					mk := mk
+					cleared := ir.FlowHeld(r,
+						func(i ssa.Instruction) bool {
+							_, f2, st2, ok := mastFieldStore(i)
+							if !ok || f2 != mk {
+								return false
+							}
+							v, isC := ir.ConstBool(st2.Val)
+							return isC && !v
+						},
+						func(i ssa.Instruction) bool {
+							_, f2, st2, ok := mastFieldStore(i)
+							if !ok || f2 != mk {
+								return false
+							}
+							v, isC := ir.ConstBool(st2.Val)
+							return !(isC && !v)
+						})
+					if cleared {
+						c.OK(P.InstrPos(r), "success of "+ir.FuncName(f)+" with a nil root", "the mark "+mk+" is cleared on every path to it", false)
+					} else {
+						c.Violation(f, P.InstrPos(r), "nil root persisted without clearing the emptied mark",
+							"the persisting function reports success for a tree whose root is nil without setting Mast."+mk+" to false on every path: a tree whose last entry was deleted keeps answering 'modified' after it has been persisted (and every later MakeRoot looks like a change)")
+					}
+				}
+			}
+		}
 		for _, fn := range P.Funcs {
 			if fn.Pkg == nil || fn.Pkg.Pkg.Path() != ir.MastPath {
 				continue
